@@ -42,7 +42,10 @@ Flagged(st, x) ==
         ELSE IF l \in may /\ st.lists[l].flag = "no" THEN [st.lists[l] EXCEPT !.flag = "free"]
         ELSE st.lists[l]]
 
-JoinArg(e) == [kind |-> e.a.op, by |-> <<"a">>]
+Renamed(e) == "ren" \in DOMAIN e.a /\ e.a.ren
+(* right-hand items as seen by the join: with by = ("a", "aa") the right key "aa" plays the role of "a" *)
+RightOf(st, e) == IF Renamed(e) THEN [i \in DOMAIN Plain(st, e.o) |-> RenameItem(Plain(st, e.o)[i], <<<<"a", "aa">>>>)]
+                  ELSE Plain(st, e.o)
 
 (* The post-state of event e (deterministic events only; "sample" is judged by predicate). *)
 Step(st, e) ==
@@ -59,7 +62,7 @@ Step(st, e) ==
        [items |-> st.items,
         lists |-> Append(st.lists, NewList(st.lists[x].its \o st.lists[e.o].its, {x, e.o}, {x, e.o}))]
   ELSE IF op \in {"semi", "anti"} THEN
-       LET R == Plain(st, e.o)
+       LET R == RightOf(st, e)
            P(it) == IF op = "semi" THEN FirstMatch(it, R, <<"a">>) # 0 ELSE FirstMatch(it, R, <<"a">>) = 0 IN
        [items |-> st.items,
         lists |-> Append(st.lists, NewList(Ids(SelSeq(L, P)), {x}, {x, e.o}))]
@@ -76,7 +79,7 @@ Step(st, e) ==
        [items |-> st.items \o out,
         lists |-> Append(Flagged(st, x), NewList(Fresh(st, Len(out)), {}, {x}))]
   ELSE IF op \in {"inner", "left"} THEN
-       LET R == Plain(st, e.o)
+       LET R == RightOf(st, e)
            keep == IF op = "left" THEN L ELSE LET P(it) == FirstMatch(it, R, <<"a">>) # 0 IN SelSeq(L, P)
            new(id) == NoId(Merged(Put(st.items[id], IdKey, id), R, <<"a">>)) IN
        [items |-> [id \in DOMAIN st.items |-> IF id \in Range(Ids(keep)) THEN new(id) ELSE st.items[id]],
@@ -86,12 +89,14 @@ Step(st, e) ==
 (* what the event needs in order to be a supported input *)
 EventOK(st, e) ==
   /\ e.x \in DOMAIN st.lists
-  /\ (e.a.op \in {"extend", "add", "semi", "anti", "inner", "left"} =>
-         e.o \in DOMAIN st.lists /\ AllHave(Plain(st, e.o), {"a"}))
+  /\ (e.a.op \in {"extend", "add", "semi", "anti", "inner", "left"} => e.o \in DOMAIN st.lists)
+  /\ (e.a.op \in {"semi", "anti", "inner", "left"} =>
+         IF Renamed(e) THEN AllHave(Plain(st, e.o), {"aa"}) /\ \A i \in DOMAIN Plain(st, e.o) : ~Has(Plain(st, e.o)[i], "a")
+         ELSE AllHave(Plain(st, e.o), {"a"}))
   /\ (e.a.op \in {"semi", "anti", "inner", "left"} => AllHave(Plain(st, e.x), {"a"}))
   /\ (e.a.op \in {"inner", "left"} =>      \* non-key fields present on both sides: free point, not generated
-         \A i \in DOMAIN Plain(st, e.x), m \in DOMAIN Plain(st, e.o) :
-            (DOMAIN Plain(st, e.x)[i] \cap DOMAIN Plain(st, e.o)[m]) \subseteq {"a"})
+         \A i \in DOMAIN Plain(st, e.x), m \in DOMAIN RightOf(st, e) :
+            (DOMAIN Plain(st, e.x)[i] \cap DOMAIN RightOf(st, e)[m]) \subseteq {"a"})
   /\ (e.a.op \notin {"extend", "add", "semi", "anti", "inner", "left", "deepcopy", "sample"} => Supported(Plain(st, e.x), e.a))
   /\ (e.a.op = "unique" => e.a.keys # <<>>)
 
